@@ -56,6 +56,8 @@ class TemperatureArray(TemperatureProfile):
         temperature = super().write(output)
 
         temperature.write_scalar('tp_array', self._tp_profile)
+        if self._p_profile is not None:
+            temperature.write_array('p_points', self._p_profile)
 
         return temperature
 
